@@ -770,9 +770,22 @@ impl NHistory {
             }
             114 => {
                 let payload = v.get(2).and_then(|t| t.as_b()).map(|x| x.to_vec());
+                let id = u(1).unwrap_or(0);
                 let obs = self.emit(op);
                 if let Some([Tree::N(0), Tree::L(ap)]) = obs.as_l() {
                     if let (Some(a), Some(p)) = (ap.first().and_then(parse_addr), ap.get(1).and_then(|t| t.as_b())) {
+                        // C10/C04: a payload for client id goes to the address that id is connected from, and to nobody when it is not connected
+                        match self.connected.get(&id).copied() {
+                            Some(at) if at == a => {}
+                            Some(at) => {
+                                self.violate("C10", format!("a payload for client id {} was addressed to {}, that client is connected from {}", id, a, at));
+                                self.violate("C04", format!("a payload for client id {} was addressed to {}, that client is connected from {}", id, a, at));
+                            }
+                            None => {
+                                self.violate("C10", format!("a payload for client id {} was sealed and addressed to {} although no such client is connected", id, a));
+                                self.violate("C04", format!("a payload for client id {} was sealed and addressed to {} although no such client is connected", id, a));
+                            }
+                        }
                         self.log_server_out(p.to_vec(), a, payload);
                     }
                 }
